@@ -63,6 +63,24 @@ using std::pow;
   long double pow(long double, double);
 #endif
 
+#ifdef MASA_VERIF
+// verification hook (compiled only with -DMASA_VERIF): per-precision count of
+// live manufactured_solution objects, readable through masa_verif_live()
+namespace MASA { namespace verif {
+  template <typename Scalar> long& live_count();
+  template <> long& live_count<double>();
+  template <> long& live_count<long double>();
+  template <typename Scalar>
+  struct live_token
+  {
+    live_token()                  { ++live_count<Scalar>(); }
+    live_token(const live_token&) { ++live_count<Scalar>(); }
+    ~live_token()                 { --live_count<Scalar>(); }
+  };
+}}
+extern "C" long masa_verif_live(int precision); // 0: double, 1: long double
+#endif // MASA_VERIF
+
 namespace MASA
 {
 
@@ -115,6 +133,9 @@ namespace MASA
 
     std::string mmsname;                 // the name of the manufactured solution
     int dimension;                       // dimension of the solution
+#ifdef MASA_VERIF
+    verif::live_token<Scalar> verif_live_token_; // verification hook
+#endif
 
   public:
     static const Scalar pi;
